@@ -16,14 +16,31 @@ Events that refute:
     a failed write whose client gets no 4xx/5xx reply (non-QueueError exceptions may also just close)
     SMTP: sole failure is a QueueError carrying .reply, client sees another code
     slow write: any end-of-DATA reply / HTTP status emitted while the only outstanding write is still parked
+    a final answer that is neither 2xx nor 4xx/5xx
+Mechanisms carry the stratum (@later-message, @validator-class, @queue-with-relay) when the witness is not a
+plain single message on a receive-only queue.
 The real-socket transports additionally take the same snapshot when the client RECEIVES the reply.
+
+Audit extensions (strata on top of the enumeration above):
+    sessions   two messages per SMTP session / two HTTP requests per connection, each judged on its own writes;
+               SMTP fed stepwise, RFC 2920 style (commands pipelined), with the next transaction glued behind
+               the end-of-data line, or as one single segment; HTTP keep-alive and HTTP pipelining.  The
+               end-of-DATA reply is found by counting replies on the wire (ReplyTracker), not by feed timing.
+    rejected   a validator refuses one RCPT: custody is owed to the accepted recipients only
+    shapes     write dies with gevent.Timeout / GreenletExit (BaseException, not Exception), QueueError + 421
+    policies   a queue policy raises (before the split, or on the k-th envelope after it)
+    relay      the Queue has a relay (attempts are spawned from enqueue), bounded or unbounded relay pool
+    proxy      relay policies that raise, gevent.Timeout, non-dict Mapping / tuple results, every failing subset
+    wire       the real-socket transports run in the quick tier too; a failure must be answered 4xx/5xx
 """
 import io
 import re
+import json
 import struct
 import base64
 import random
 import collections
+import collections.abc
 
 import gevent
 from gevent.event import Event
@@ -31,12 +48,12 @@ from gevent import socket as gsocket
 
 import slimta.edge.smtp as _edge_smtp
 import slimta.edge.wsgi as _edge_wsgi
-from slimta.edge.smtp import SmtpEdge
+from slimta.edge.smtp import SmtpEdge, SmtpValidators
 from slimta.edge.wsgi import WsgiEdge
 from slimta.queue import Queue, QueueError, QueueStorage
 from slimta.queue.dict import DictStorage
 from slimta.queue.proxy import ProxyQueue
-from slimta.policy import QueuePolicy
+from slimta.policy import QueuePolicy, RelayPolicy
 from slimta.policy.split import RecipientSplit, RecipientDomainSplit
 from slimta.policy.forward import Forward
 from slimta.policy.headers import AddDateHeader
@@ -48,60 +65,94 @@ from vf.sock import ScriptSocket
 PROPERTY = 'C02'
 LEVEL = 'fault_enumeration'
 LEVEL_TEXT = ('Real SmtpEdge / WsgiEdge in front of a real Queue (policy chains none, RecipientSplit, '
-              'RecipientDomainSplit, Forward+RecipientSplit, AddDateHeader+RecipientSplit; store_pool None/1/2) '
+              'RecipientDomainSplit, Forward+RecipientSplit, AddDateHeader+RecipientSplit, domain split + '
+              'recipient split; store_pool None/1/2; with and without a relay / bounded relay pool) '
               'over a fault-injecting StoreProbe(DictStorage), or in front of a real ProxyQueue with a scripted '
               'Relay. Fully enumerated: every recipient layout (1..3 recipients quick, 1..4 thorough, every '
               'set partition into <= 3 domains) x every failing write position (none, 1..n_produced, and every '
-              'pair with mixed reply shapes) x every failure shape (QueueError, QueueError+451, QueueError+552, '
-              'RuntimeError, write parked then ok, write parked then failing) x synchronous / yielding write x '
-              'transport (SMTP on ScriptSocket, WSGI app call; thorough adds SMTP over a socketpair and WSGI '
-              'through gevent.pywsgi on loopback); ProxyQueue: every relay result shape x failing recipient '
-              'position x parked/not. The custody invariant is evaluated synchronously at the instant the '
-              'reply is handed to sendall() / start_response(). Held = no enumerated fault was acknowledged '
-              'with 2xx and no 2xx preceded custody, for these bounds; not a proof for other storages.')
-LEVEL_NOTE = ('Trusted: StoreProbe (40 lines), ScriptRelay (25 lines), the recording end-of-chain policy, the '
-              'rule "first sendall after the body was fed is the end-of-DATA reply" (replies are flushed per '
-              'command), the start_response wrapper, and the harness-side Forward mapping (one regex).')
+              'pair with mixed reply shapes) x every failure shape (QueueError, QueueError+451/552/421, '
+              'RuntimeError, gevent.Timeout, GreenletExit, write parked then ok, write parked then failing) x '
+              'synchronous / yielding write x transport (SMTP on ScriptSocket, SMTP over a socketpair, WSGI app '
+              'call, WSGI through gevent.pywsgi on loopback -- all four in both tiers); a queue policy raising '
+              'before the split or on the k-th envelope after it; ProxyQueue: every relay result shape (None, '
+              'Reply, raise Transient/Permanent/RuntimeError/Timeout, relay policy raising, dict / non-dict '
+              'Mapping / list / tuple with every non-empty failing subset) x parked/not. Two-message sessions '
+              '(SMTP stepwise / commands pipelined / next transaction glued behind end-of-data / whole session '
+              'in one segment; HTTP keep-alive / pipelined requests; optional validator-rejected RCPT): first '
+              'message from 6 outcomes, second message over the full fault enumeration. The custody invariant '
+              'is evaluated synchronously at the instant the reply is handed to sendall() / start_response(). '
+              'Held = no enumerated fault was acknowledged with 2xx, every failure was answered 4xx/5xx (or the '
+              'connection closed for non-QueueError exceptions) and no 2xx preceded custody, for these bounds; '
+              'not a proof for other storages.')
+LEVEL_NOTE = ('Trusted: StoreProbe (45 lines), ScriptRelay (40 lines), the recording end-of-chain policy, the '
+              'raising policy, ReplyTracker (SMTP reply framing on the wire: reply k of the session answers '
+              'command k, checked through the 354 before each end-of-DATA reply), the rule "first sendall after '
+              'the body was fed is the end-of-DATA reply" for single-message stepwise cases, the start_response '
+              'wrapper, and the harness-side Forward mapping (one regex).')
 TECHNIQUE = ('runtime monitoring: invariant evaluated at the reply-emission hook (socket.sendall / '
              'start_response) under exhaustive storage/relay fault enumeration')
 RULE = ('case = transport x queue kind x (Queue: policy chain x recipient layout (restricted-growth string '
         'over <= 3 domains) x store_pool x write yields {0, seeded 1..3} x fault map {write index -> shape}: '
-        'no fault, every single (index, shape), every index pair x 4 shape pairs | ProxyQueue: n recipients x '
-        'relay result {None, Reply 250, raise Transient, raise Permanent, raise RuntimeError, mapping / '
-        'sequence: all ok, one 4xx at j, one 5xx at j, all failed} x relay parked or not). Enumeration is '
-        'complete for these bounds; the seed only chooses message text and the number of yields. '
-        'non-trivial & distinct = distinct (transport, queue kind, chain, layout, pool, yields>0, fault map) '
-        'with >= 2 produced envelopes and no fault at write 1, or distinct (transport, n, result shape, j, '
-        'parked) with a per-recipient relay result whose failing position j > 1')
+        'no fault, every single (index, shape), every index pair x 4 shape pairs; plus relay present x relay '
+        'pool; plus raising policy position | ProxyQueue: n recipients x relay result {None, Reply 250, raise '
+        'Transient / Permanent / RuntimeError / Timeout, relay policy raising, dict / Mapping / list / tuple: '
+        'all ok, every non-empty failing subset} x relay parked or not | session: feed mode x first message '
+        '(6 outcomes) x second message (layout x fault map, or relay result) x rejected RCPT position). '
+        'Enumeration is complete for these bounds; the seed only chooses message text and the number of yields. '
+        'non-trivial & distinct = distinct (transport, queue kind, chain, layout, pool, yields>0, fault map, '
+        'relay mode) with >= 2 produced envelopes and no fault at write 1, or distinct (transport, n, result '
+        'shape, failing set, parked) with a per-recipient relay result whose first failing position j > 1, or '
+        'a session whose second message is non-trivial by the same rule')
 ASSUMPTIONS = [
     'custody of an envelope == StoreProbe.write() returned an id and the wrapped real DictStorage holds that '
     'id; a write that raised, or has not returned, is not custody',
     'the envelopes "the policies produced" are those seen by a recording no-op QueuePolicy appended as last '
     'element of the chain (each final envelope passes it exactly once); without policies: the one envelope',
     'SMTP replies are flushed per command, so the first sendall() after the harness fed body + end-of-data '
-    'line carries the first byte of the end-of-DATA reply (checked: preceding reply was 354)',
+    'line carries the first byte of the end-of-DATA reply (checked: preceding reply was 354); in sessions the '
+    'k-th reply on the wire answers the k-th command (checked: the reply before each end-of-DATA reply is 354)',
     'PtrLookup is replaced by an inert stand-in in slimta.edge.smtp / slimta.edge.wsgi (no resolver threads); '
-    'the queue is not started and has no relay (store only), so nothing but enqueue touches the store',
+    'the queue is not started; when it has a relay, the relay fails transiently and the backoff is one hour, '
+    'so nothing removes a written envelope from the store during the case',
     'ProxyQueue: "relayed successfully for every accepted recipient" == the attempt returned None / a Reply, '
     'or a mapping / sequence whose every value is None or a Reply',
+    'the writes of a message in a session are the store.write() calls that start after the previous '
+    'message\'s final answer was emitted (the edge handles one message at a time on a connection)',
 ]
 REQUIRED_HITS = ['reply-emission-hook', '2xx-with-full-custody', 'failed-write-refused',
                  'queue-error-reply-code-passed-on', 'parked-write-looked-for-premature-reply',
                  'proxy-2xx-after-successful-relay', 'proxy-failed-relay-refused',
-                 'fault-beyond-first-write-judged']
+                 'fault-beyond-first-write-judged',
+                 'reply-reception-snapshot', 'failure-answered-4xx-5xx',
+                 'base-exception-write-failure-refused', 'raising-policy-refused',
+                 'queue-with-relay-failed-write-refused', 'queue-with-relay-2xx-with-full-custody',
+                 'proxy-non-dict-container-judged', 'proxy-relay-policy-failure-refused',
+                 'session-second-message-judged', 'session-second-message-failed-write-refused',
+                 'pipelined-eod-reply-judged', 'rejected-rcpt-message-judged',
+                 'http-second-request-judged']
 SHARDS = {'quick': 8, 'thorough': 16}
-BUDGET = {'quick': 45, 'thorough': 600}
+BUDGET = {'quick': 60, 'thorough': 600}
 EXHAUSTIVE = {'quick': True, 'thorough': True}
 
 WATCHDOG = 20.0     # generous real-time guard; firing only ever yields R.inconclusive
 
 CHAINS = ['none', 'split', 'domsplit', 'forward+split', 'date+split', 'domsplit+split']
-SHAPES = ['qerr', 'qerr451', 'qerr552', 'runtime', 'slow-ok', 'slow-fail']
+SHAPES = ['qerr', 'qerr451', 'qerr552', 'qerr421', 'runtime', 'timeout', 'killed', 'slow-ok', 'slow-fail']
+REPLY_OF = {'qerr451': '451', 'qerr552': '552', 'qerr421': '421'}
 PAIR_SHAPES = [('qerr451', 'qerr552'), ('qerr552', 'qerr451'), ('qerr', 'qerr552'), ('qerr552', 'runtime')]
-TRANSPORTS = {'quick': ['smtp-script', 'wsgi-app'],
+TRANSPORTS = {'quick': ['smtp-script', 'wsgi-app', 'smtp-socketpair', 'wsgi-server'],
               'thorough': ['smtp-script', 'wsgi-app', 'smtp-socketpair', 'wsgi-server']}
 NMAX = {'quick': 3, 'thorough': 4}
 POOLS = [None, 1, 2]
+RELAY_MODES = ['failing', 'failing-pool1']         # Queue with a relay (legacy cases: no relay)
+RELAY_CHAINS = ['none', 'split', 'domsplit+split']
+BOOM_CHAINS = ['split', 'domsplit', 'domsplit+split']
+FEEDS = {'smtp-script': ['step', 'pipe-cmds', 'pipe-tail', 'pipe-all'],
+         'smtp-socketpair': ['step', 'pipe-all'],
+         'wsgi-app': ['step'],
+         'wsgi-server': ['step', 'pipe-all']}
+SESSION_CHAINS = ['split', 'domsplit+split', 'forward+split']
+SESSION_POOLS = [None, 1]
 
 
 # ---------------------------------------------------------------- workload
@@ -121,10 +172,6 @@ def layouts(nmax, maxdom=3):
     return sorted(out, key=lambda t: (len(t), t))
 
 
-def rcpts_of(layout):
-    return ['r%d@d%d.test' % (i, d) for i, d in enumerate(layout)]
-
-
 def n_produced(chain, layout):
     """Workload knowledge used only to bound the fault index k (the oracle counts with the recording policy)."""
     if chain == 'none':
@@ -134,47 +181,131 @@ def n_produced(chain, layout):
     return len(layout)
 
 
-def fault_maps(nprod):
+def fault_maps(nprod, pairs=True):
     yield {}
     for k in range(1, nprod + 1):
         for shape in SHAPES:
             yield {str(k): shape}
+    if not pairs:
+        return
     for k1 in range(1, nprod + 1):
         for k2 in range(k1 + 1, nprod + 1):
             for s1, s2 in PAIR_SHAPES:
                 yield {str(k1): s1, str(k2): s2}
 
 
+def fail_subsets(n):
+    """Every non-empty set of failing recipient positions, with the kinds it is tried with."""
+    for mask in range(1, 1 << n):
+        pos = [j for j in range(1, n + 1) if mask >> (j - 1) & 1]
+        if len(pos) == 1:
+            yield 'one-4xx', {str(pos[0]): '4xx'}
+            yield 'one-5xx', {str(pos[0]): '5xx'}
+        elif len(pos) == n:
+            yield 'all-failed', {str(j): ('4xx' if j % 2 else '5xx') for j in pos}
+        else:
+            yield 'some-failed', {str(j): ('5xx' if i % 2 else '4xx') for i, j in enumerate(pos)}
+
+
 def relay_results(n):
-    for whole in ('none', 'reply250', 'raiseT', 'raiseP', 'raiseRuntime'):
+    for whole in ('none', 'reply250', 'raiseT', 'raiseP', 'raiseRuntime', 'raiseTimeout',
+                  'policyT', 'policyP', 'policyRuntime'):
         yield {'form': 'whole', 'what': whole, 'fail': {}}
-    for form in ('map', 'seq'):
+    for form in ('map', 'seq', 'mapping', 'tuple'):
         yield {'form': form, 'what': 'all-ok', 'fail': {}}
-        for j in range(1, n + 1):
-            yield {'form': form, 'what': 'one-4xx', 'fail': {str(j): '4xx'}}
-            yield {'form': form, 'what': 'one-5xx', 'fail': {str(j): '5xx'}}
-        yield {'form': form, 'what': 'all-failed',
-               'fail': {str(j): ('4xx' if j % 2 else '5xx') for j in range(1, n + 1)}}
+        for what, fail in fail_subsets(n):
+            yield {'form': form, 'what': what, 'fail': fail}
+
+
+def first_messages_queue():
+    """The six outcomes of the first message of a session (the session must survive it)."""
+    return [{'layout': [0], 'faults': {}},
+            {'layout': [0, 1], 'faults': {}},
+            {'layout': [0, 1], 'faults': {'2': 'qerr552'}},
+            {'layout': [0, 1], 'faults': {'1': 'qerr451'}},
+            {'layout': [0, 1], 'faults': {'1': 'slow-ok'}},
+            {'layout': [0, 1], 'faults': {'2': 'slow-fail'}}]
+
+
+def first_messages_proxy():
+    return [{'n': 1, 'relay': {'form': 'whole', 'what': 'none', 'fail': {}}, 'parked': False},
+            {'n': 2, 'relay': {'form': 'whole', 'what': 'raiseT', 'fail': {}}, 'parked': False},
+            {'n': 2, 'relay': {'form': 'map', 'what': 'one-5xx', 'fail': {'2': '5xx'}}, 'parked': False},
+            {'n': 2, 'relay': {'form': 'seq', 'what': 'all-ok', 'fail': {}}, 'parked': True}]
 
 
 def all_cases(tier, seed):
     rnd = random.Random('c02-%d' % seed)
     tag = 'seed%d' % seed
+    nmax = NMAX[tier]
+    full = tier == 'thorough'
     for transport in TRANSPORTS[tier]:
+        smtp = transport.startswith('smtp')
+        real = transport in ('smtp-socketpair', 'wsgi-server')
+        # --- single message, receive-only Queue: the full enumeration
         for chain in CHAINS:
-            for layout in layouts(NMAX[tier]):
+            for layout in layouts(nmax):
                 nprod = n_produced(chain, layout)
                 for pool in POOLS:
                     for faults in fault_maps(nprod):
                         for yields in (0, rnd.randint(1, 3)):
+                            if yields and real and not full:
+                                continue        # quick: the yielding write only on the scripted transports
                             yield {'transport': transport, 'queue': 'queue', 'chain': chain,
                                    'layout': list(layout), 'pool': pool, 'faults': faults,
                                    'yields': yields, 'tag': tag}
-        for n in range(1, NMAX[tier] + 1):
+        # --- Queue with a relay: enqueue also spawns the first delivery attempt of every written envelope
+        for relay in RELAY_MODES:
+            for chain in RELAY_CHAINS:
+                for layout in layouts(nmax):
+                    nprod = n_produced(chain, layout)
+                    for pool in (None, 1):
+                        for faults in fault_maps(nprod, pairs=full):
+                            yield {'transport': transport, 'queue': 'queue', 'chain': chain,
+                                   'layout': list(layout), 'pool': pool, 'faults': faults,
+                                   'yields': 0, 'relay': relay, 'tag': tag}
+        # --- a queue policy raises: before the split, or on the k-th envelope after it
+        for chain in BOOM_CHAINS:
+            for layout in layouts(nmax):
+                nprod = n_produced(chain, layout)
+                booms = [{'at': 'pre', 'k': 1, 'exc': e} for e in ('runtime', 'qerr')]
+                booms += [{'at': 'post', 'k': k, 'exc': e} for k in range(1, nprod + 1)
+                          for e in ('runtime', 'qerr', 'timeout')]
+                for boom in booms:
+                    for pool in (None, 2):
+                        yield {'transport': transport, 'queue': 'queue', 'chain': chain,
+                               'layout': list(layout), 'pool': pool, 'faults': {}, 'yields': 0,
+                               'boom': boom, 'tag': tag}
+        # --- ProxyQueue
+        for n in range(1, nmax + 1):
             for res in relay_results(n):
                 for parked in (False, True):
                     yield {'transport': transport, 'queue': 'proxy', 'n': n, 'relay': res,
                            'parked': parked, 'tag': tag}
+        # --- two messages per session / connection
+        second_layouts = [(0, 1), (0, 0, 1)] + ([(0, 1, 2, 0)] if full else [])
+        for feed in FEEDS[transport]:
+            for chain in (SESSION_CHAINS if full else SESSION_CHAINS[:2]):
+                for pool in (SESSION_POOLS if full else SESSION_POOLS[:1]):
+                    for m1 in first_messages_queue():
+                        for l2 in second_layouts:
+                            rejects = [None]
+                            if smtp and (full or feed in ('step', 'pipe-all')):
+                                rejects += [0, len(l2)]
+                            for reject in rejects:
+                                for f2 in fault_maps(n_produced(chain, l2), pairs=full):
+                                    m2 = {'layout': list(l2), 'faults': f2}
+                                    if reject is not None:
+                                        m2['reject'] = reject
+                                    yield {'transport': transport, 'queue': 'session', 'qkind': 'queue',
+                                           'feed': feed, 'chain': chain, 'pool': pool, 'yields': 0,
+                                           'msgs': [dict(m1), m2], 'tag': tag}
+            for m1 in (first_messages_proxy() if full else first_messages_proxy()[1::2]):
+                for n in range(1, 4):
+                    for res in relay_results(n):
+                        for parked in (False, True):
+                            yield {'transport': transport, 'queue': 'session', 'qkind': 'proxy', 'feed': feed,
+                                   'msgs': [dict(m1), {'n': n, 'relay': res, 'parked': parked}], 'tag': tag}
 
 
 def gen_cases(tier, seed, shard, nshards):
@@ -208,6 +339,19 @@ def _quiet_hub():
     hub.print_exception = lambda *a, **k: None     # injected faults die inside spawned write greenlets
 
 
+class Plan(object):
+    """What the probes do while one message is being handled."""
+
+    def __init__(self, faults=None, spec=None, park=False, boom=None):
+        self.faults = faults or {}
+        self.spec = spec
+        self.park = park
+        self.boom = boom
+        self.parked = Event()
+        self.release = Event()
+        self.slow = park or any(s.startswith('slow') for s in self.faults.values())
+
+
 class TapPolicy(QueuePolicy):
     """Last element of the chain: records every envelope that leaves the chain, changes nothing."""
 
@@ -218,41 +362,65 @@ class TapPolicy(QueuePolicy):
         self.seen.append(list(envelope.recipients))
 
 
-def make_fault(shape):
+class BoomPolicy(QueuePolicy):
+    """Raises on the k-th envelope it is applied to while the current message's plan says so."""
+
+    def __init__(self, lab, at):
+        self.lab = lab
+        self.at = at
+        self.calls = 0
+
+    def apply(self, envelope):
+        boom = self.lab.cur.boom
+        if not boom or boom['at'] != self.at:
+            return
+        self.calls += 1
+        if self.calls == boom['k']:
+            self.lab.boomed.append(list(envelope.recipients))
+            raise make_fault({'runtime': 'runtime', 'qerr': 'qerr552', 'timeout': 'timeout'}[boom['exc']],
+                             'queue policy')
+
+
+def make_fault(shape, what='storage backend'):
     if shape == 'runtime':
-        return RuntimeError('injected: storage backend blew up')
+        return RuntimeError('injected: %s blew up' % what)
+    if shape == 'timeout':
+        return gevent.Timeout(None, 'injected: %s timed out' % what)
+    if shape == 'killed':
+        return gevent.GreenletExit('injected: %s greenlet killed' % what)
     e = QueueError('injected: write failed')
     if shape == 'qerr451':
         e.reply = Reply('451', '4.3.1 injected: mail system full')
     elif shape == 'qerr552':
         e.reply = Reply('552', '5.3.4 injected: message too big for system')
+    elif shape == 'qerr421':
+        e.reply = Reply('421', '4.3.2 injected: system not accepting network messages')
     return e
 
 
 class StoreProbe(QueueStorage):
     """Real DictStorage behind a write() that yields, fails or parks on the k-th call and records it."""
 
-    def __init__(self, faults, yields):
+    def __init__(self, lab, yields):
         super(StoreProbe, self).__init__()
         self.inner = DictStorage()
-        self.faults = faults
+        self.lab = lab
         self.yields = yields
         self.writes = []
-        self.parked = Event()
-        self.release = Event()
 
     def write(self, envelope, timestamp):
-        idx = len(self.writes) + 1
+        plan = self.lab.cur
+        idx = len(self.writes) + 1 - self.lab.wbase          # 1-based within the current message
         rec = {'i': idx, 'rcpts': list(envelope.recipients), 'state': 'pending', 'id': None}
         self.writes.append(rec)
         try:
             for _ in range(self.yields):
                 gevent.sleep(0)
-            shape = self.faults.get(str(idx))
+            shape = plan.faults.get(str(idx))
             if shape in ('slow-ok', 'slow-fail'):
                 rec['state'] = 'parked'
-                self.parked.set()
-                self.release.wait()
+                plan.parked.set()
+                plan.release.wait()
                 rec['state'] = 'pending'
                 if shape == 'slow-fail':
                     raise make_fault('qerr')
@@ -285,32 +453,80 @@ class StoreProbe(QueueStorage):
         return self.inner.set_recipients_delivered(id, rcpt_indexes)
 
 
-class ScriptRelay(Relay):
+class FailingRelay(Relay):
+    """Relay of a Queue that is not the subject: every attempt fails transiently (the envelope stays stored)."""
 
-    def __init__(self, spec, parked):
-        super(ScriptRelay, self).__init__()
-        self.spec = spec
-        self.do_park = parked
-        self.parked = Event()
-        self.release = Event()
-        self.started = 0
-        self.finished = 0
-        self.rcpts = []
-        self.outcome = {}          # recipient -> True (relayed) / False (failed)
+    def __init__(self):
+        super(FailingRelay, self).__init__()
+        self.attempts = 0
 
     def attempt(self, envelope, attempts):
-        self.started += 1
+        self.attempts += 1
+        raise TransientRelayError('injected: next hop is down')
+
+
+class PlainMapping(collections.abc.Mapping):
+    """A Mapping that is not a dict."""
+
+    def __init__(self, pairs):
+        self._d = dict(pairs)
+
+    def __getitem__(self, k):
+        return self._d[k]
+
+    def __iter__(self):
+        return iter(self._d)
+
+    def __len__(self):
+        return len(self._d)
+
+
+class RaisingRelayPolicy(RelayPolicy):
+
+    def __init__(self, lab):
+        self.lab = lab
+
+    def apply(self, envelope):
+        spec = self.lab.cur.spec
+        if not spec or not spec['what'].startswith('policy'):
+            return
+        plan = self.lab.cur
+        att = {'rcpts': list(envelope.recipients), 'finished': False,
+               'outcome': {r: False for r in envelope.recipients}}
+        self.lab.relay.attempts.append(att)
+        if plan.park:
+            plan.parked.set()
+            plan.release.wait()
+        att['finished'] = True
+        if spec['what'] == 'policyT':
+            raise TransientRelayError('injected: relay policy defers')
+        if spec['what'] == 'policyP':
+            raise PermanentRelayError('injected: relay policy refuses')
+        raise RuntimeError('injected: relay policy blew up')
+
+
+class ScriptRelay(Relay):
+
+    def __init__(self, lab):
+        super(ScriptRelay, self).__init__()
+        self.lab = lab
+        self.attempts = []         # one record per attempt: rcpts, finished, outcome {rcpt: True/False}
+
+    def attempt(self, envelope, attempts):
+        plan = self.lab.cur
+        spec = plan.spec
         rc = list(envelope.recipients)
-        self.rcpts.extend(rc)
-        if self.do_park:
-            self.parked.set()
-            self.release.wait()
-        form, what, fail = self.spec['form'], self.spec['what'], self.spec['fail']
+        att = {'rcpts': rc, 'finished': False, 'outcome': {}}
+        self.attempts.append(att)
+        if plan.park:
+            plan.parked.set()
+            plan.release.wait()
+        form, what, fail = spec['form'], spec['what'], spec['fail']
         if form == 'whole':
             ok = what in ('none', 'reply250')
             for r in rc:
-                self.outcome[r] = ok
-            self.finished += 1
+                att['outcome'][r] = ok
+            att['finished'] = True
             if what == 'none':
                 return None
             if what == 'reply250':
@@ -319,6 +535,8 @@ class ScriptRelay(Relay):
                 raise TransientRelayError('injected: next hop busy')
             if what == 'raiseP':
                 raise PermanentRelayError('injected: next hop refuses')
+            if what == 'raiseTimeout':
+                raise gevent.Timeout(None, 'injected: relay timed out')
             raise RuntimeError('injected: relay blew up')
         vals = []
         for j, r in enumerate(rc, 1):
@@ -331,29 +549,86 @@ class ScriptRelay(Relay):
                                                 Reply('550', '5.1.1 injected: no such user')))
             else:
                 vals.append(None if j % 2 else Reply('250', '2.1.5 ok'))
-            self.outcome[r] = f is None
-        self.finished += 1
+            att['outcome'][r] = f is None
+        att['finished'] = True
         if form == 'map':
             return dict(zip(rc, vals))
+        if form == 'mapping':
+            return PlainMapping(zip(rc, vals))
+        if form == 'tuple':
+            return tuple(vals)
         return vals
+
+
+class RejectingValidators(SmtpValidators):
+    """Refuses every recipient in the domain reject.test, leaves everything else alone."""
+
+    def handle_rcpt(self, reply, recipient, params):
+        if recipient.endswith('@reject.test'):
+            reply.code = '550'
+            reply.message = '5.1.1 injected: no such user here'
 
 
 # ---------------------------------------------------------------- one laboratory per case
 
 FWD_PATTERN, FWD_REPL = r'@d0\.test$', '@moved.test'
+NEUTRAL = Plan()
+
+
+class Msg(object):
+    """One message of the case: what is offered, what the probes do meanwhile, and its slice of the records."""
+
+    def __init__(self, idx, spec, kind, session, tag):
+        self.idx = idx
+        pre = ('m%d' % idx) if session else ''
+        if kind == 'queue':
+            self.rcpts = ['%sr%d@d%d.test' % (pre, i, d) for i, d in enumerate(spec['layout'])]
+            self.plan = Plan(faults=spec['faults'], boom=spec.get('boom'))
+        else:
+            self.rcpts = ['%sp%d@x%d.test' % (pre, i, i) for i in range(spec['n'])]
+            self.plan = Plan(spec=spec['relay'], park=spec['parked'])
+        self.offered = list(self.rcpts)
+        self.reject = spec.get('reject')
+        if self.reject is not None:
+            self.offered.insert(self.reject, 'nobody%d@reject.test' % idx)
+        self.accepted = list(self.rcpts)       # replaced by the RCPTs really answered 250 (session transports)
+        self.sender = 'sender%s@origin.test' % pre
+        self.body = ('Subject: c02 %s %s\r\nFrom: %s\r\n\r\ncustody probe\r\n' % (tag, pre, self.sender)).encode()
+        self.base = None                       # {'w': .., 'p': .., 'a': ..}: start of this message's records
+        self.end = None
+        self.emitted = None                    # code of the final answer as emitted
+        self.data_code = None
 
 
 class Lab(object):
 
     def __init__(self, case):
         self.case = case
-        self.kind = case['queue']
+        self.session = case['queue'] == 'session'
+        self.kind = case['qkind'] if self.session else case['queue']
         self.tap = None
+        self.boomed = []
+        self.cur = NEUTRAL
+        self.wbase = 0
+        self.marked = -1
+        specs = case['msgs'] if self.session else [case]
+        self.msgs = [Msg(i, sp, self.kind, self.session, case['tag']) for i, sp in enumerate(specs)]
         if self.kind == 'queue':
-            self.rcpts = rcpts_of(case['layout'])
-            self.store = StoreProbe(case['faults'], case['yields'])
-            self.queue = Queue(self.store, relay=None, store_pool=case['pool'])
+            self.store = StoreProbe(self, case['yields'])
+            relay_mode = case.get('relay')
+            kw = {}
+            self.qrelay = None
+            if relay_mode:
+                self.qrelay = FailingRelay()
+                kw = {'relay': self.qrelay, 'backoff': lambda envelope, attempts: 3600.0,
+                      'relay_pool': 1 if relay_mode == 'failing-pool1' else None}
+            self.queue = Queue(self.store, store_pool=case['pool'], **kw)
             chain = case['chain']
+            with_boom = any(m.plan.boom for m in self.msgs)
+            self.boom_policies = []
+            if with_boom:
+                self.boom_policies.append(BoomPolicy(self, 'pre'))
+                self.queue.add_policy(self.boom_policies[-1])
             if chain == 'split':
                 self.queue.add_policy(RecipientSplit())
             elif chain == 'domsplit':
@@ -371,34 +646,73 @@ class Lab(object):
                 # replacement in Queue._run_policies)
                 self.queue.add_policy(RecipientDomainSplit())
                 self.queue.add_policy(RecipientSplit())
+            if with_boom:
+                self.boom_policies.append(BoomPolicy(self, 'post'))
+                self.queue.add_policy(self.boom_policies[-1])
             if chain != 'none':
                 self.tap = TapPolicy()
                 self.queue.add_policy(self.tap)
-            self.slow = any(s.startswith('slow') for s in case['faults'].values())
-            self.parked, self.release = self.store.parked, self.store.release
         else:
-            self.rcpts = ['p%d@x%d.test' % (i, i) for i in range(case['n'])]
-            self.relay = ScriptRelay(case['relay'], case['parked'])
+            self.relay = ScriptRelay(self)
+            self.relay.add_policy(RaisingRelayPolicy(self))
             self.queue = ProxyQueue(self.relay)
-            self.slow = case['parked']
-            self.parked, self.release = self.relay.parked, self.relay.release
-        self.sender = 'sender@origin.test'
-        self.body = ('Subject: c02 %s\r\nFrom: sender@origin.test\r\n\r\ncustody probe\r\n' % case['tag']).encode()
-        self.accepted = list(self.rcpts)       # narrowed by the SMTP transports to RCPTs answered 250
         self.snaps = []                        # snapshots: emission first, reception (real sockets) after
+        self.validators = None
+        if case['transport'].startswith('smtp') and any(m.reject is not None for m in self.msgs):
+            self.validators = RejectingValidators
+        self.mark(0)
 
-    def expected_final_rcpts(self):
-        if self.kind == 'queue' and self.case['chain'] == 'forward+split':
-            return [re.sub(FWD_PATTERN, FWD_REPL, r) for r in self.accepted]
-        return list(self.accepted)
+    # single-message views used by the single-message transports
+    rcpts = property(lambda self: self.msgs[0].offered)
+    accepted = property(lambda self: self.msgs[0].accepted)
+    sender = property(lambda self: self.msgs[0].sender)
+    body = property(lambda self: self.msgs[0].body)
+    slow = property(lambda self: self.msgs[0].plan.slow)
+    parked = property(lambda self: self.msgs[0].plan.parked)
+    release = property(lambda self: self.msgs[0].plan.release)
 
-    def snapshot(self, code, where):
-        s = {'where': where, 'code': code}
+    def _position(self):
         if self.kind == 'queue':
-            s['produced'] = (len(self.tap.seen) if self.tap is not None else 1)
-            s['produced_rcpts'] = [list(x) for x in self.tap.seen] if self.tap is not None else None
+            return {'w': len(self.store.writes), 'p': len(self.tap.seen) if self.tap is not None else 0}
+        return {'a': len(self.relay.attempts)}
+
+    def mark(self, m):
+        """Message m starts now: everything the probes record from here on belongs to it."""
+        if m <= self.marked:
+            return
+        self.marked = m
+        pos = self._position()
+        if 0 < m <= len(self.msgs):
+            self.msgs[m - 1].end = pos
+        if m < len(self.msgs):
+            self.msgs[m].base = pos
+            self.cur = self.msgs[m].plan
+        else:
+            self.cur = NEUTRAL
+        self.wbase = pos.get('w', 0)
+        if self.kind == 'queue':
+            for b in self.boom_policies:
+                b.calls = 0
+
+    def release_all(self):
+        for m in self.msgs:
+            m.plan.release.set()
+
+    def expected_final_rcpts(self, msg):
+        if self.kind == 'queue' and self.case['chain'] == 'forward+split':
+            return [re.sub(FWD_PATTERN, FWD_REPL, r) for r in msg.accepted]
+        return list(msg.accepted)
+
+    def snapshot(self, code, where, m=0):
+        msg = self.msgs[m]
+        s = {'where': where, 'code': code, 'm': m}
+        base, end = msg.base or {}, msg.end or {}
+        if self.kind == 'queue':
+            seen = self.tap.seen[base.get('p', 0):end.get('p')] if self.tap is not None else None
+            s['produced'] = len(seen) if seen is not None else 1
+            s['produced_rcpts'] = [list(x) for x in seen] if seen is not None else None
             s['writes'] = []
-            for w in self.store.writes:
+            for w in self.store.writes[base.get('w', 0):end.get('w')]:
                 w = dict(w)
                 if w['state'] == 'ok':
                     try:
@@ -407,9 +721,15 @@ class Lab(object):
                     except KeyError:
                         w['state'] = 'ok-but-not-in-storage'
                 s['writes'].append(w)
+            if msg.plan.boom:
+                s['policy_raised_on'] = [list(x) for x in self.boomed]
         else:
-            s['relay'] = {'started': self.relay.started, 'finished': self.relay.finished,
-                          'rcpts': list(self.relay.rcpts), 'outcome': dict(self.relay.outcome)}
+            atts = self.relay.attempts[base.get('a', 0):end.get('a')]
+            outcome = {}
+            for a in atts:
+                outcome.update(a['outcome'])
+            s['relay'] = {'started': len(atts), 'finished': sum(1 for a in atts if a['finished']),
+                          'rcpts': [r for a in atts for r in a['rcpts']], 'outcome': outcome}
         self.snaps.append(s)
         return s
 
@@ -422,15 +742,51 @@ def judge(lab, snap, edgekind, out):
     """Apply the custody invariant to one snapshot; append (mechanism, what) pairs / hit names to out."""
     code = snap['code']
     ok2 = is2xx(code)
+    msg = lab.msgs[snap['m']]
+    second = lab.session and snap['m'] > 0
+    hits = out['hits']
+    nviol = len(out['viol'])
+    try:
+        _judge(lab, snap, edgekind, out, code, ok2, msg, second, hits)
+    finally:
+        # the stratum is part of the mechanism: a defect of later messages / of a configuration must not hide
+        # behind (or be hidden by) one that shows on every single message
+        suffix = ''
+        if second:
+            suffix += '@later-message'
+        if lab.validators is not None:
+            suffix += '@validator-class'
+        if lab.kind == 'queue' and lab.case.get('relay'):
+            suffix += '@queue-with-relay'
+        if suffix:
+            out['viol'][nviol:] = [(mech + suffix, what) for mech, what in out['viol'][nviol:]]
+
+
+def _judge(lab, snap, edgekind, out, code, ok2, msg, second, hits):
+    if second:
+        hits.append('session-second-message-judged')
+        if edgekind == 'wsgi-edge':
+            hits.append('http-second-request-judged')
+    if lab.session and lab.case['feed'] != 'step' and edgekind == 'smtp-edge':
+        hits.append('pipelined-eod-reply-judged')
+    if msg.reject is not None:
+        hits.append('rejected-rcpt-message-judged')
+    if code is not None and code[:1] not in '245':
+        out['viol'].append(('unclassified/%s/final-answer-neither-2xx-nor-4xx-5xx' % edgekind,
+                            'the final answer to the message was %r' % code))
     if lab.kind == 'queue':
-        faults = lab.case['faults']
+        faults = msg.plan.faults
+        boom = msg.plan.boom if lab.boomed else None
+        if msg.plan.boom and not lab.boomed:
+            out['inconc'].append('the raising policy was never reached')
+        with_relay = bool(lab.case.get('relay'))
         writes = snap['writes']
         pending = [w for w in writes if w['state'] in ('pending', 'parked')]
         failed = [w for w in writes if w['state'].startswith('failed') or w['state'] == 'ok-but-not-in-storage']
         okw = [w for w in writes if w['state'] == 'ok']
         not_handed = max(snap['produced'], 1) - len(writes)
         if ok2:
-            need = collections.Counter(lab.expected_final_rcpts())
+            need = collections.Counter(lab.expected_final_rcpts(msg))
             have = collections.Counter(r for w in okw for r in w['stored_rcpts'])
             missing = sorted((need - have).elements())
             if pending or not_handed > 0:
@@ -440,8 +796,11 @@ def judge(lab, snap, edgekind, out):
                                                                  max(not_handed, 0))))
             elif failed:
                 only_qerr = all(w['state'] == 'failed:QueueError' for w in failed)
+                base_exc = all(w['state'] in ('failed:Timeout', 'failed:GreenletExit') for w in failed)
                 if writes and writes[0]['state'] == 'ok' and only_qerr:
                     mech = edgekind + '/reply-from-first-result-only'
+                elif base_exc:
+                    mech = edgekind + '/2xx-although-write-died-with-base-exception'
                 else:
                     mech = 'unclassified/%s/2xx-although-write-failed' % edgekind
                 out['viol'].append((mech, '%s emitted although write(s) %s of %d failed (%s); recipients %s '
@@ -450,18 +809,33 @@ def judge(lab, snap, edgekind, out):
                                        ','.join(sorted(set(w['state'] for w in failed))),
                                        missing)))
             elif missing:
-                out['viol'].append(('unclassified/%s/accepted-recipient-in-no-written-envelope' % edgekind,
-                                    '%s emitted, all %d writes ok, but accepted recipients %s are in no stored '
+                if boom:
+                    mech = edgekind + '/2xx-although-policy-raised-and-recipient-unwritten'
+                else:
+                    mech = 'unclassified/%s/accepted-recipient-in-no-written-envelope' % edgekind
+                out['viol'].append((mech, '%s emitted, all %d writes ok, but accepted recipients %s are in no stored '
                                     'envelope' % (code, len(writes), missing)))
             else:
-                out['hits'].append('2xx-with-full-custody')
+                hits.append('2xx-with-full-custody')
+                if with_relay:
+                    hits.append('queue-with-relay-2xx-with-full-custody')
         else:
-            if not faults:
+            if code is not None and code[:1] in '45' and (boom or failed):
+                hits.append('failure-answered-4xx-5xx')
+            if boom:
+                hits.append('raising-policy-refused')      # any exception out of enqueue(): reply or close
+            elif not faults:
                 out['inconc'].append('no-fault case was not acknowledged (code %r)' % (code,))
             elif failed:
-                out['hits'].append('failed-write-refused')
+                hits.append('failed-write-refused')
+                if second:
+                    hits.append('session-second-message-failed-write-refused')
+                if with_relay:
+                    hits.append('queue-with-relay-failed-write-refused')
+                if any(w['state'] in ('failed:Timeout', 'failed:GreenletExit') for w in failed):
+                    hits.append('base-exception-write-failure-refused')
                 if min(w['i'] for w in failed) > 1:
-                    out['hits'].append('fault-beyond-first-write-judged')
+                    hits.append('fault-beyond-first-write-judged')
                 any_runtime = any(w['state'] != 'failed:QueueError' for w in failed)
                 if code is None and not any_runtime:
                     out['viol'].append(('unclassified/%s/no-reply-after-failed-write' % edgekind,
@@ -469,46 +843,64 @@ def judge(lab, snap, edgekind, out):
                                         % [w['i'] for w in failed]))
                 shapes = [faults.get(str(w['i'])) for w in failed]
                 if (edgekind == 'smtp-edge' and len(faults) == 1 and len(failed) == 1
-                        and shapes[0] in ('qerr451', 'qerr552') and snap['where'] == 'emission'):
-                    want = shapes[0][-3:]
+                        and shapes[0] in REPLY_OF and snap['where'] == 'emission'):
+                    want = REPLY_OF[shapes[0]]
                     if code == want:
-                        out['hits'].append('queue-error-reply-code-passed-on')
+                        hits.append('queue-error-reply-code-passed-on')
                     else:
                         out['viol'].append(('unclassified/smtp-edge/queue-error-reply-code-not-passed-on',
                                             'sole failure carried reply %s, client saw %s' % (want, code)))
         if ok2 and any(int(k) > 1 for k in faults) and '1' not in faults:
-            out['hits'].append('fault-beyond-first-write-judged')
+            hits.append('fault-beyond-first-write-judged')
     else:
         rl = snap['relay']
-        spec = lab.case['relay']
-        bad = sorted(r for r in lab.accepted if rl['outcome'].get(r) is not True)
+        spec = msg.plan.spec
+        bad = sorted(r for r in msg.accepted if rl['outcome'].get(r) is not True)
+        if spec['form'] in ('mapping', 'tuple'):
+            hits.append('proxy-non-dict-container-judged')
         if ok2:
-            if rl['finished'] < 1:
+            if rl['finished'] < 1 or rl['finished'] < rl['started']:
                 out['viol'].append(('early-2xx-before-relay-finished/' + edgekind,
                                     '%s emitted at %s while the relay attempt had %s'
                                     % (code, snap['where'], 'not finished' if rl['started'] else 'not started')))
             elif bad:
-                if spec['form'] in ('map', 'seq'):
+                if spec['form'] != 'whole':
                     mech = 'proxy-queue/per-recipient-failure-reported-as-success'
+                elif spec['what'].startswith('policy'):
+                    mech = 'proxy-queue/2xx-although-relay-policy-raised'
                 else:
                     mech = 'unclassified/proxy-queue/2xx-although-relay-raised'
                 out['viol'].append((mech, '%s emitted although the relay (%s %s) failed for %s'
                                     % (code, spec['form'], spec['what'], bad)))
             else:
-                out['hits'].append('proxy-2xx-after-successful-relay')
+                hits.append('proxy-2xx-after-successful-relay')
         else:
             if rl['finished'] and not bad:
                 out['inconc'].append('successful relay was not acknowledged (code %r)' % (code,))
             elif bad:
-                out['hits'].append('proxy-failed-relay-refused')
-                if code is None and spec['what'] != 'raiseRuntime':
+                hits.append('proxy-failed-relay-refused')
+                if code is not None and code[:1] in '45':
+                    hits.append('failure-answered-4xx-5xx')
+                if spec['what'].startswith('policy'):
+                    hits.append('proxy-relay-policy-failure-refused')
+                if second:
+                    hits.append('session-second-message-failed-write-refused')
+                if code is None and spec['what'] not in ('raiseRuntime', 'raiseTimeout', 'policyRuntime'):
                     out['viol'].append(('unclassified/%s/no-reply-after-failed-relay' % edgekind,
                                         'relay failed for %s but the client got no reply at all' % bad))
 
 
-def look_while_parked(lab, emitted, edgekind, out, extra_probe=None):
-    """The slow write / relay is parked: give the edge every chance to answer early, then look."""
-    got = lab.parked.wait(timeout=WATCHDOG)
+def look_while_parked(plan, emitted, edgekind, out, extra_probe=None, ended=None):
+    """The slow write / relay is parked: give the edge every chance to answer early, then look.
+    plan: anything with .parked (Lab of a single-message case, or the Plan of one message)."""
+    if ended is not None:
+        gevent.wait([plan.parked, ended], count=1, timeout=WATCHDOG)
+        got = plan.parked.is_set()
+        if not got and ended.ready():
+            out['inconc'].append('the connection ended before the slow write/relay was reached')
+            return
+    else:
+        got = plan.parked.wait(timeout=WATCHDOG)
     if not got:
         out['inconc'].append('watchdog: the slow write/relay was never reached')
         return
@@ -526,7 +918,12 @@ def look_while_parked(lab, emitted, edgekind, out, extra_probe=None):
                             'reply %s emitted while the only outstanding write/relay was still parked' % early))
 
 
-# ---------------------------------------------------------------- transports
+def code_of(data):
+    """Reply code at the start of a sendall payload (the timeout reply is preceded by an empty line)."""
+    return bytes(data).lstrip(b'\r\n')[:3].decode('latin-1')
+
+
+# ---------------------------------------------------------------- transports: one message
 
 ADDR = ('127.0.0.1', 4321)
 
@@ -564,7 +961,7 @@ def run_smtp_script(lab, out):
 
     def on_send(ss, data):
         if st['body_fed'] and st['eod'] is None:
-            st['eod'] = data[:3].decode('latin-1')
+            st['eod'] = code_of(data)
             judge(lab, lab.snapshot(st['eod'], 'emission'), 'smtp-edge', out)
             out['hits'].append('reply-emission-hook')
 
@@ -638,6 +1035,8 @@ class SmtpClient(object):
                     return None
                 self.buf += d
             ln, self.buf = self.buf.split(b'\n', 1)
+            if not lines and ln.strip() == b'':
+                continue                    # the timeout reply is preceded by an empty line
             lines.append(ln)
             if ln[3:4] != b'-':
                 return b'\n'.join(lines)
@@ -647,7 +1046,7 @@ class SmtpClient(object):
         try:
             d = self.s.recv(4096)
             self.buf += d
-            return d[:3].decode('latin-1') if d else None
+            return code_of(d) if d else None
         except (BlockingIOError, gsocket.timeout, OSError):
             return None
         finally:
@@ -660,7 +1059,7 @@ def run_smtp_socketpair(lab, out):
 
     def on_send(data):
         if st['body_sent'] and st['eod'] is None:
-            st['eod'] = data[:3].decode('latin-1')
+            st['eod'] = code_of(data)
             judge(lab, lab.snapshot(st['eod'], 'emission'), 'smtp-edge', out)
             out['hits'].append('reply-emission-hook')
 
@@ -715,7 +1114,7 @@ def run_smtp_socketpair(lab, out):
         if t is not wd:
             raise
         out['inconc'].append('watchdog: SMTP socketpair session stalled')
-        lab.release.set()
+        lab.release_all()
         g.kill(block=False)
     finally:
         wd.close()
@@ -726,38 +1125,46 @@ def run_smtp_socketpair(lab, out):
                 pass
 
 
-def wsgi_environ(lab):
+def wsgi_environ(msg):
     b64 = lambda s: base64.b64encode(s.encode()).decode()      # noqa: E731
     return {'REQUEST_METHOD': 'POST', 'PATH_INFO': '/', 'CONTENT_TYPE': 'message/rfc822',
-            'CONTENT_LENGTH': str(len(lab.body)), 'wsgi.input': io.BytesIO(lab.body),
+            'CONTENT_LENGTH': str(len(msg.body)), 'wsgi.input': io.BytesIO(msg.body),
             'wsgi.url_scheme': 'http', 'REMOTE_ADDR': '127.0.0.1', 'HTTP_X_EHLO': 'client.test',
-            'HTTP_X_ENVELOPE_SENDER': b64(lab.sender),
-            'HTTP_X_ENVELOPE_RECIPIENT': ', '.join(b64(r) for r in lab.rcpts)}
+            'HTTP_X_ENVELOPE_SENDER': b64(msg.sender),
+            'HTTP_X_ENVELOPE_RECIPIENT': ', '.join(b64(r) for r in msg.rcpts)}
 
 
 def run_wsgi_app(lab, out):
-    st = {'status': None, 'headers': None}
-
-    def start_response(status, headers, exc_info=None):
-        if st['status'] is None:
-            st['status'] = status[:3]
-            st['headers'] = list(headers)
-            judge(lab, lab.snapshot(st['status'], 'emission'), 'wsgi-edge', out)
-            out['hits'].append('reply-emission-hook')
-
+    """The application object is called once per message (two calls in a session)."""
     edge = WsgiEdge(lab.queue, hostname='edge.test')
-    g = gevent.spawn(edge, wsgi_environ(lab), start_response)
-    if lab.slow:
-        look_while_parked(lab, lambda: st['status'], 'wsgi-edge', out)
-        lab.release.set()
-    if not g.join(timeout=WATCHDOG) and not g.dead:
-        g.kill(block=False)
-        out['inconc'].append('watchdog: WSGI call did not return')
-        return
-    out['end'] = type(g.exception).__name__ if g.exception is not None else 'returned'
-    out['wire'] = repr((st['status'], st['headers']))
-    if st['status'] is None:
-        judge(lab, lab.snapshot(None, 'call-ended-without-response'), 'wsgi-edge', out)
+    wire = []
+    for msg in lab.msgs:
+        st = {'status': None, 'headers': None}
+        lab.mark(msg.idx)
+
+        def start_response(status, headers, exc_info=None, st=st, msg=msg):
+            if st['status'] is None:
+                st['status'] = msg.emitted = status[:3]
+                st['headers'] = list(headers)
+                judge(lab, lab.snapshot(st['status'], 'emission', msg.idx), 'wsgi-edge', out)
+                out['hits'].append('reply-emission-hook')
+                lab.mark(msg.idx + 1)
+
+        g = gevent.spawn(edge, wsgi_environ(msg), start_response)
+        if msg.plan.slow:
+            look_while_parked(msg.plan, lambda: st['status'], 'wsgi-edge', out)
+            msg.plan.release.set()
+        if not g.join(timeout=WATCHDOG) and not g.dead:
+            g.kill(block=False)
+            lab.release_all()
+            out['inconc'].append('watchdog: WSGI call did not return')
+            return
+        out['end'] = type(g.exception).__name__ if g.exception is not None else 'returned'
+        wire.append((st['status'], st['headers']))
+        out['wire'] = repr(wire)
+        if st['status'] is None:
+            judge(lab, lab.snapshot(None, 'call-ended-without-response', msg.idx), 'wsgi-edge', out)
+            lab.mark(msg.idx + 1)
 
 
 class _NullLog(object):
@@ -805,14 +1212,33 @@ def shard_cleanup():
         srv.stop(timeout=1)
 
 
+def http_request(msg, close):
+    env = wsgi_environ(msg)
+    return ('POST / HTTP/1.1\r\nHost: edge.test\r\n%sContent-Type: message/rfc822\r\n'
+            'X-Ehlo: client.test\r\nX-Envelope-Sender: %s\r\nX-Envelope-Recipient: %s\r\n'
+            'Content-Length: %d\r\n\r\n' % ('Connection: close\r\n' if close else '',
+                                            env['HTTP_X_ENVELOPE_SENDER'], env['HTTP_X_ENVELOPE_RECIPIENT'],
+                                            len(msg.body))).encode() + msg.body
+
+
+STATUS_LINE = re.compile(br'(?m)^HTTP/1\.[01] (\d{3})')
+
+
 def run_wsgi_server(lab, out):
-    st = {'status': None}
+    """One connection to a real gevent.pywsgi server; one request per message: keep-alive one after the
+    other ('step') or all requests in one segment ('pipe-all')."""
+    st = {'k': 0}
+    feed = lab.case.get('feed', 'step')
 
     def tap(status, headers):
-        if st['status'] is None:
-            st['status'] = status[:3]
-            judge(lab, lab.snapshot(st['status'], 'emission'), 'wsgi-edge', out)
+        k = st['k']
+        st['k'] += 1
+        if k < len(lab.msgs):
+            msg = lab.msgs[k]
+            msg.emitted = status[:3]
+            judge(lab, lab.snapshot(msg.emitted, 'emission', k), 'wsgi-edge', out)
             out['hits'].append('reply-emission-hook')
+            lab.mark(k + 1)
 
     edge, srv = wsgi_server()
     edge.queue = lab.queue
@@ -823,96 +1249,368 @@ def run_wsgi_server(lab, out):
     try:
         c = gsocket.create_connection(('127.0.0.1', srv.server_port))
         c.setsockopt(gsocket.SOL_SOCKET, gsocket.SO_LINGER, struct.pack('ii', 1, 0))   # close() sends RST
-        env = wsgi_environ(lab)
-        req = ('POST / HTTP/1.1\r\nHost: edge.test\r\nConnection: close\r\nContent-Type: message/rfc822\r\n'
-               'X-Ehlo: client.test\r\nX-Envelope-Sender: %s\r\nX-Envelope-Recipient: %s\r\n'
-               'Content-Length: %d\r\n\r\n' % (env['HTTP_X_ENVELOPE_SENDER'], env['HTTP_X_ENVELOPE_RECIPIENT'],
-                                               len(lab.body))).encode() + lab.body
-        c.sendall(req)
         cl = SmtpClient(c)
-        if lab.slow:
-            def probe():
-                d = cl.readable_now()
-                return None if d is None else 'HTTP-bytes'
-            look_while_parked(lab, lambda: st['status'], 'wsgi-edge', out, extra_probe=probe)
-            lab.release.set()
-        while b'\r\n' not in cl.buf:
-            d = c.recv(4096)
-            if not d:
+        last = len(lab.msgs) - 1
+        if feed == 'pipe-all':
+            c.sendall(b''.join(http_request(m, m.idx == last) for m in lab.msgs))
+        eof = False
+        for msg in lab.msgs:
+            if feed != 'pipe-all':
+                c.sendall(http_request(msg, msg.idx == last))
+            if msg.plan.slow:
+                def probe(msg=msg):
+                    cl.readable_now()
+                    return 'HTTP-bytes' if len(STATUS_LINE.findall(cl.buf)) > msg.idx else None
+                look_while_parked(msg.plan, lambda: msg.emitted, 'wsgi-edge', out, extra_probe=probe)
+                msg.plan.release.set()
+            # read up to the status line of this message's response; after the last request, up to EOF
+            while not eof and (msg.idx == last or len(STATUS_LINE.findall(cl.buf)) <= msg.idx):
+                d = c.recv(4096)
+                if not d:
+                    eof = True
+                else:
+                    cl.buf += d
+            codes = STATUS_LINE.findall(cl.buf)
+            got = codes[msg.idx].decode() if len(codes) > msg.idx else None
+            snap = lab.snapshot(got, 'reception', msg.idx)
+            out['hits'].append('reply-reception-snapshot')
+            sub = {'viol': [], 'hits': [], 'inconc': []}
+            judge(lab, snap, 'wsgi-edge', sub)
+            if msg.emitted is None or got != msg.emitted:
+                for kx in sub:
+                    out[kx].extend(sub[kx])
+            else:
+                out['viol'].extend(sub['viol'])
+            if got is None:
+                lab.mark(msg.idx + 1)
+                if msg.idx != last:
+                    out['inconc'].append('the connection ended before request %d was answered' % (msg.idx + 1))
                 break
-            cl.buf += d
-        m = re.match(br'HTTP/1\.[01] (\d{3})', cl.buf)
-        got = m.group(1).decode() if m else None
-        snap = lab.snapshot(got, 'reception')
-        out['hits'].append('reply-reception-snapshot')
-        out['wire'] = cl.buf[:200]
-        sub = {'viol': [], 'hits': [], 'inconc': []}
-        judge(lab, snap, 'wsgi-edge', sub)
-        if st['status'] is None or got != st['status']:
-            for kx in sub:
-                out[kx].extend(sub[kx])
-        else:
-            out['viol'].extend(sub['viol'])
-        while True:
-            d = c.recv(4096)
-            if not d:
-                break
+        out['wire'] = cl.buf[:400]
         out['end'] = 'returned'
     except gevent.Timeout as t:
         if t is not wd:
             raise
         out['inconc'].append('watchdog: HTTP exchange stalled')
-        lab.release.set()
+        lab.release_all()
     finally:
         wd.close()
         if c is not None:
             c.close()
 
 
+# ---------------------------------------------------------------- transports: SMTP sessions
+
+class ReplyTracker(object):
+    """SMTP reply framing over the bytes handed to sendall(): tells which replies START in a payload."""
+
+    def __init__(self):
+        self.k = -1                 # index of the last reply that started
+        self.in_reply = False       # between the first line of a multi-line reply and its last line
+        self.line = b''             # current incomplete line
+        self.codes = []
+
+    def feed(self, data):
+        started = []
+        for ch in bytes(data):
+            c = bytes((ch,))
+            if not self.line and not self.in_reply and c in b'\r\n':
+                continue            # empty line in front of a reply (the timeout reply has one)
+            if not self.line and not self.in_reply:
+                self.k += 1
+                self.codes.append(b'')
+                started.append(self.k)
+            self.line += c
+            if len(self.line) <= 3 and not self.in_reply:
+                self.codes[self.k] = self.line[:3]
+            if c == b'\n':
+                self.in_reply = self.line[3:4] == b'-'
+                self.line = b''
+        return [(k, self.codes[k].decode('latin-1')) for k in started]
+
+
+def session_units(lab):
+    u = [('ehlo', None, b'EHLO client.test\r\n')]
+    for m in lab.msgs:
+        u.append(('mail', m.idx, ('MAIL FROM:<%s>\r\n' % m.sender).encode()))
+        for r in m.offered:
+            u.append(('rcpt', m.idx, ('RCPT TO:<%s>\r\n' % r).encode()))
+        u.append(('data', m.idx, b'DATA\r\n'))
+        u.append(('body', m.idx, m.body + b'.\r\n'))
+    u.append(('quit', None, b'QUIT\r\n'))
+    return u
+
+
+def feed_groups(units, feed):
+    """Which units travel together in one segment."""
+    if feed == 'step':
+        return [[u] for u in units]
+    if feed == 'pipe-all':
+        return [list(units)]
+    groups, cur = [], []
+    if feed == 'pipe-cmds':          # RFC 2920: MAIL, RCPT.., DATA in one go; the message on its own; QUIT alone
+        for u in units:
+            if u[0] == 'body':
+                groups.append(cur)
+                groups.append([u])
+                cur = []
+            else:
+                cur.append(u)
+        groups.append(cur)
+    else:                            # 'pipe-tail': the next transaction up to DATA (or QUIT) glued behind the body
+        for u in units:
+            if u[0] == 'body':
+                cur = [u]
+                groups.append(cur)
+            elif cur and cur[0][0] == 'body':
+                cur.append(u)
+                if u[0] == 'data':
+                    cur = []
+            else:
+                groups.append([u])
+    return [g for g in groups if g]
+
+
+class SessionMonitor(object):
+    """Follows the replies of one SMTP session on the sending side and judges every end-of-DATA reply at the
+    instant its first byte is handed to sendall()."""
+
+    def __init__(self, lab, out):
+        self.lab = lab
+        self.out = out
+        self.roles = [('banner', None)] + [('eod' if k == 'body' else k, m) for k, m, _ in session_units(lab)]
+        self.tracker = ReplyTracker()
+        self.rcpt_seen = collections.Counter()
+        self.actual = collections.defaultdict(list)
+        self.setup_bad = None
+
+    def on_send(self, data):
+        for k, code in self.tracker.feed(data):
+            if k >= len(self.roles):
+                self.setup_bad = self.setup_bad or 'more replies than commands: %r' % bytes(data)[:40]
+                continue
+            role, m = self.roles[k]
+            if self.setup_bad:
+                continue
+            if len(code) < 3:
+                self.setup_bad = 'reply code split over two sendall() calls'
+            elif role in ('banner', 'ehlo', 'mail') and code[:1] != '2':
+                self.setup_bad = '%s refused: %s' % (role, code)
+            elif role == 'rcpt':
+                msg = self.lab.msgs[m]
+                addr = msg.offered[self.rcpt_seen[m]]
+                self.rcpt_seen[m] += 1
+                if code == '250':
+                    self.actual[m].append(addr)
+            elif role == 'data':
+                self.lab.msgs[m].data_code = code
+                if code != '354':
+                    self.setup_bad = 'DATA of message %d not answered 354: %s' % (m + 1, code)
+            elif role == 'eod':
+                msg = self.lab.msgs[m]
+                if self.actual[m] != msg.rcpts:
+                    self.out['inconc'].append('message %d: accepted recipients %r, workload expected %r'
+                                              % (m + 1, self.actual[m], msg.rcpts))
+                msg.accepted = list(self.actual[m])
+                msg.emitted = code
+                judge(self.lab, self.lab.snapshot(code, 'emission', m), 'smtp-edge', self.out)
+                self.out['hits'].append('reply-emission-hook')
+                self.lab.mark(m + 1)
+
+    def finish(self):
+        """The session is over: messages whose content was asked for but never answered, or never reached."""
+        if self.setup_bad:
+            self.out['inconc'].append(self.setup_bad)
+            return
+        for msg in self.lab.msgs:
+            if msg.emitted is not None:
+                continue
+            if msg.data_code == '354':
+                msg.accepted = list(self.actual[msg.idx])
+                judge(self.lab, self.lab.snapshot(None, 'session-end-without-reply', msg.idx), 'smtp-edge', self.out)
+                self.lab.mark(msg.idx + 1)
+            else:
+                self.out['inconc'].append('message %d of the session was never reached' % (msg.idx + 1))
+
+
+def run_smtp_session_script(lab, out):
+    groups = feed_groups(session_units(lab), lab.case['feed'])
+    mon = SessionMonitor(lab, out)
+    st = {'i': 0}
+
+    def on_recv(ss):
+        if ss.segments or st['i'] >= len(groups):
+            return
+        ss.feed(b''.join(u[2] for u in groups[st['i']]))
+        st['i'] += 1
+
+    sock = ScriptSocket([], eof=True, on_recv=on_recv, on_send=lambda ss, data: mon.on_send(data), peer=ADDR)
+    edge = SmtpEdge(None, lab.queue, hostname='edge.test', validator_class=lab.validators)
+    g = gevent.spawn(edge.handle, sock, ADDR)
+    for msg in lab.msgs:
+        if msg.plan.slow:
+            look_while_parked(msg.plan, lambda: msg.emitted, 'smtp-edge', out, ended=g)
+            msg.plan.release.set()
+    if not g.join(timeout=WATCHDOG) and not g.dead:
+        g.kill(block=False)
+        lab.release_all()
+        out['inconc'].append('watchdog: SMTP session did not end')
+        return
+    out['end'] = type(g.exception).__name__ if g.exception is not None else 'returned'
+    out['wire'] = b''.join(sock.sent)
+    mon.finish()
+
+
+def run_smtp_session_socketpair(lab, out):
+    a, b = gsocket.socketpair()
+    groups = feed_groups(session_units(lab), lab.case['feed'])
+    mon = SessionMonitor(lab, out)
+    edge = SmtpEdge(None, lab.queue, hostname='edge.test', validator_class=lab.validators)
+    g = gevent.spawn(edge.handle, TapSocket(a, mon.on_send), ADDR)
+    cl = SmtpClient(b)
+    wd = gevent.Timeout(WATCHDOG)
+    wd.start()
+    wire = []
+    try:
+        rep = cl.reply()
+        wire.append(rep)
+        gone = rep is None
+        for group in groups:
+            if gone:
+                break
+            try:
+                b.sendall(b''.join(u[2] for u in group))
+            except OSError:
+                break
+            for kind, m, _ in group:
+                msg = lab.msgs[m] if m is not None else None
+                if kind == 'body' and msg.plan.slow:
+                    look_while_parked(msg.plan, lambda: msg.emitted, 'smtp-edge', out,
+                                      extra_probe=None if len(group) > 1 else cl.readable_now, ended=g)
+                    msg.plan.release.set()
+                rep = cl.reply()
+                wire.append(rep)
+                if kind == 'body':
+                    got = rep[:3].decode('latin-1') if rep else None
+                    snap = lab.snapshot(got, 'reception', m)
+                    out['hits'].append('reply-reception-snapshot')
+                    sub = {'viol': [], 'hits': [], 'inconc': []}
+                    judge(lab, snap, 'smtp-edge', sub)
+                    if msg.emitted is None or got != msg.emitted:
+                        for kx in sub:
+                            out[kx].extend(sub[kx])
+                    else:
+                        out['viol'].extend(sub['viol'])
+                if rep is None:
+                    gone = True
+                    break
+        for s in (b,):
+            try:
+                s.shutdown(gsocket.SHUT_WR)
+            except OSError:
+                pass
+        g.join()
+        out['end'] = type(g.exception).__name__ if g.exception is not None else 'returned'
+        out['wire'] = b'\n'.join(r for r in wire if r)
+        mon.finish()
+    except gevent.Timeout as t:
+        if t is not wd:
+            raise
+        out['inconc'].append('watchdog: SMTP socketpair session stalled')
+        lab.release_all()
+        g.kill(block=False)
+    finally:
+        wd.close()
+        for s in (a, b):
+            try:
+                s.close()
+            except Exception:
+                pass
+
+
 RUNNERS = {'smtp-script': run_smtp_script, 'smtp-socketpair': run_smtp_socketpair,
            'wsgi-app': run_wsgi_app, 'wsgi-server': run_wsgi_server}
+SESSION_RUNNERS = {'smtp-script': run_smtp_session_script, 'smtp-socketpair': run_smtp_session_socketpair,
+                   'wsgi-app': run_wsgi_app, 'wsgi-server': run_wsgi_server}
 
 
 # ---------------------------------------------------------------- the check
+
+def nontrivial_queue(nprod, faults):
+    return bool(faults) and nprod >= 2 and '1' not in faults
+
+
+def nontrivial_proxy(spec):
+    return spec['form'] != 'whole' and bool(spec['fail']) and '1' not in spec['fail']
+
 
 def run_case(case, R):
     _quiet_hub()
     lab = Lab(case)
     out = {'viol': [], 'hits': [], 'inconc': [], 'end': None, 'wire': None}
     R.eval()
-    RUNNERS[case['transport']](lab, out)
+    session = case['queue'] == 'session'
+    (SESSION_RUNNERS if session else RUNNERS)[case['transport']](lab, out)
+    lab.release_all()
+    if lab.kind == 'queue' and case.get('relay'):
+        for _ in range(4):              # let the spawned first delivery attempts (which fail) settle
+            gevent.idle()
+        R.observe('relay-attempts-spawned', min(lab.qrelay.attempts, 4))
 
     for h in out['hits']:
         R.hit(h)
     for reason in out['inconc']:
         R.inconclusive(reason)
-    R.count('cases/' + case['transport'] + '/' + case['queue'])
+    stratum = case['queue'] if not session else 'session-%s-%s' % (case['qkind'], case['feed'])
+    if lab.kind == 'queue' and case.get('relay'):
+        stratum += '+relay'
+    if case.get('boom'):
+        stratum += '+raising-policy'
+    R.count('cases/' + case['transport'] + '/' + stratum)
     R.observe('session-end', (case['transport'], out['end']))
-    emitted = lab.snaps[0]['code'] if lab.snaps else None
-    R.observe('final-reply-code', (case['transport'], emitted))
+    by_msg = {}
+    for s in lab.snaps:
+        by_msg.setdefault(s['m'], s)
+    for m, s in sorted(by_msg.items()):
+        R.observe('final-reply-code', (case['transport'], m, s['code']))
+    last = lab.msgs[-1]
+    first_snap = by_msg.get(last.idx)
 
-    if case['queue'] == 'queue':
-        faults = case['faults']
-        nprod = lab.snaps[0]['produced'] if lab.snaps else 0
-        R.observe('chain-x-layout-x-produced', (case['chain'], tuple(case['layout']), nprod))
+    if lab.kind == 'queue':
+        faults = last.plan.faults
+        nprod = first_snap['produced'] if first_snap else 0
+        layout = tuple(case['msgs'][-1]['layout'] if session else case['layout'])
+        R.observe('chain-x-layout-x-produced', (case['chain'], layout, nprod))
         R.observe('fault-map', tuple(sorted(faults.items())))
-        if faults and nprod >= 2 and '1' not in faults:
-            R.nontrivial((case['transport'], 'queue', case['chain'], tuple(case['layout']), case['pool'],
-                          case['yields'] > 0, tuple(sorted(faults.items()))))
-        fired = set(str(w['i']) for w in lab.store.writes)
-        if any(k not in fired for k in faults) and emitted is not None and is2xx(emitted) and not out['viol']:
-            R.inconclusive('fault index beyond the writes that happened')
-        if len(lab.snaps) and case['chain'] != 'none' and nprod != n_produced(case['chain'], case['layout']) \
-                and not out['viol']:
-            R.inconclusive('policy chain produced %d envelopes, workload expected %d'
-                           % (nprod, n_produced(case['chain'], case['layout'])))
+        if case.get('boom'):
+            R.observe('raising-policy', (case['chain'], layout, tuple(sorted(case['boom'].items()))))
+        if nontrivial_queue(nprod, faults):
+            key = (case['transport'], 'queue', case['chain'], layout, case['pool'],
+                   case['yields'] > 0, tuple(sorted(faults.items())))
+            if case.get('relay'):
+                key += (case['relay'],)
+            if session:
+                key += (case['feed'], json.dumps(case['msgs'][0], sort_keys=True), last.reject)
+            R.nontrivial(key)
+        emitted = first_snap['code'] if first_snap else None
+        if first_snap is not None:
+            fired = set(str(w['i']) for w in first_snap['writes'])
+            if any(k not in fired for k in faults) and is2xx(emitted) and not out['viol']:
+                R.inconclusive('fault index beyond the writes that happened')
+            want = n_produced(case['chain'], layout)
+            if case['chain'] != 'none' and not case.get('boom') and nprod != want and not out['viol']:
+                R.inconclusive('policy chain produced %d envelopes, workload expected %d' % (nprod, want))
     else:
-        spec = case['relay']
-        R.observe('relay-result', (case['n'], spec['form'], spec['what'], tuple(sorted(spec['fail'].items())),
-                                   case['parked']))
-        if spec['form'] in ('map', 'seq') and spec['fail'] and '1' not in spec['fail']:
-            R.nontrivial((case['transport'], 'proxy', case['n'], spec['form'], spec['what'],
-                          tuple(sorted(spec['fail'].items())), case['parked']))
+        spec = last.plan.spec
+        n = len(last.rcpts)
+        R.observe('relay-result', (n, spec['form'], spec['what'], tuple(sorted(spec['fail'].items())),
+                                   last.plan.park))
+        if nontrivial_proxy(spec):
+            key = (case['transport'], 'proxy', n, spec['form'], spec['what'],
+                   tuple(sorted(spec['fail'].items())), last.plan.park)
+            if session:
+                key += (case['feed'], json.dumps(case['msgs'][0], sort_keys=True))
+            R.nontrivial(key)
 
     seen = set()
     for mech, what in out['viol']:
@@ -920,10 +1618,10 @@ def run_case(case, R):
             continue
         seen.add(mech)
         R.count('violations/%s/%s' % (case['transport'], mech))
-        R.violation(mech, '[%s] %s' % (case['transport'], what),
-                    {'snapshots': lab.snaps, 'accepted': lab.accepted,
-                     'expected_final_recipients': lab.expected_final_rcpts(),
+        R.violation(mech, '[%s%s] %s' % (case['transport'], '/' + case['feed'] if session else '', what),
+                    {'snapshots': lab.snaps, 'accepted': [m.accepted for m in lab.msgs],
+                     'expected_final_recipients': [lab.expected_final_rcpts(m) for m in lab.msgs],
                      'session_end': out['end'], 'wire': out['wire']})
     if not out['viol'] and lab.snaps and len(R.samples) < R.MAX_SAMPLES and \
-            (case['queue'] == 'proxy' or (case['faults'] and '1' not in case['faults'])):
+            (lab.kind == 'proxy' or (last.plan.faults and '1' not in last.plan.faults)):
         R.sample({'case': case, 'snapshots': lab.snaps, 'wire': out['wire']})
